@@ -153,7 +153,8 @@ def _kani_unit(unit, tier, seed):
                                                  jobs=unit.get("jobs", 8), extra=list(extra) + unit.get("kani_args", []))
             res.meta = meta
             if not out_all:
-                res.undecided.append("%s: kani produced no harness results (compile error?):\n%s" % (unit["name"], (meta.get("error") or "")[-3000:]))
+                errs = "\n".join(re.findall(r"^error[^\n]*\n(?:[^\n]*\n){0,7}", out + "\n" + err, re.M)[:6])
+                res.undecided.append("%s: kani produced no harness results (compile error?):\n%s\n%s" % (unit["name"], errs[:3000], (meta.get("error") or "")[-600:]))
                 continue
             for h in hl:
                 full = [k for k in out_all if k.split("::")[-1] == h["name"]]
